@@ -364,13 +364,21 @@ def _auto(b, e):
         return None
     if k == "diverge" and re.search(r"assert|panic_2021", e.get("sig", "") + e.get("mac", "")) and "_facts" not in e:
         return _assert_unreachable(b, e)
-    if k == "unwrap" and len(e["ops"]) >= 1 and "_facts" not in e:
+    if k == "unwrap" and len(e["ops"]) >= 1:
         # unwrap()/expect() of one of the crate's own checked helpers whose every failing return is excluded at this point
-        fs = getattr(b.prog, "_c07_failsum", None)
+        fs = getattr(b.prog, "_c07_failsum", None) if "_facts" not in e else None
         if fs is not None:
             why = fs.cannot_fail(e["ops"][0], _F(b, e))
             if why:
                 return "unwrap of a call that cannot fail here: " + why
+        # slice.get(i).unwrap() with i < slice.len() (e.g. i the Ok index of a binary search over the same, immutably borrowed, vector)
+        g = deep_strip(e["ops"][0])
+        while g[0] in ('ref', 'deref'):
+            g = deep_strip(g[1])
+        if g[0] == 'call' and len(g[2]) == 2 and re.search(r"(slice|Vec|VecDeque)::get(_mut)?$", canon(g[1])):
+            from ..bounds import container
+            if Bounds(_F(b, e)).lt(g[2][1], ('len', container(g[2][0]))):
+                return f"get(i).unwrap() with i `{tstr(deep_strip(g[2][1]))[:50]}` < len by interval / ordering closure (binary-search Ok index, range item, dominating test)"
         return None
     if k == "arith_generic" and len(e["ops"]) == 2:
         op = e.get("callee", "").split("::")[-1]
